@@ -76,7 +76,7 @@ func main() {
 	pristineReg = psatoken.VerifRegistrySnapshot()
 	loadKeys()
 	registerAll()
-	_ = sitesFile
+	loadSites(*sitesFile)
 
 	seed := uint64(1)
 	s := *seedS
